@@ -91,6 +91,7 @@ inductive SRes where
 /-- failures that end the process (`log.Panicf` of the flusher / compactor) or fail `Open` -/
 inductive Fail where
   | memPanic                   -- wild value pointer in a memstore iterator
+  | writerNew                  -- `NewSSTableStreamWriter`: "unexpected number of bloom filter elements"
   | flushWrite (r : WRes)      -- `WriteNext` rejected a call of `FlushWithTombstones`
   | flushOpen (e : Err)        -- `NewSSTableReader` on the flushed table failed
   | compactOpen (e : Err)      -- `NewSSTableReader` / `Scan` on a selected table failed
@@ -140,6 +141,11 @@ def get (c : State) (k : Bytes) : SRes :=
 
 /-! ## writing a table and loading it -/
 
+/-- `NewSSTableStreamWriter` validates its options: base path and comparator are always supplied by simpledb,
+`bloomExpectedNumberOfElements <= 0` (a uint64: `== 0`) is an error -/
+def newWriter (bloomExpected : Nat) : Except Fail Unit :=
+  if bloomExpected = 0 then .error .writerNew else .ok ()
+
 /-- a `WriteNext(k, v)` call without an injected fault; a nil key is the empty key -/
 def mkCall (e : GoBytes × GoBytes) : Call := { key := e.1.getD [], value := e.2, fault := .none }
 
@@ -165,12 +171,16 @@ def flushStep (P : Params) (c : State) : Except Fail State :=
   if !c.flushPending then .ok c
   else if c.r.sl.size = 0 then .ok { c with flushPending := false }
   else
-    match Mem.flushCalls c.r true with
-    | none => .error .memPanic
-    | some calls =>
-      match writeAndOpen P (c.gen + 1) (calls.map mkCall) .flushWrite .flushOpen with
-      | .error f => .error f
-      | .ok t => .ok { c with flushPending := false, gen := c.gen + 1, tables := c.tables ++ [t] }
+    -- `BloomExpectedNumberOfElements(uint64(memStoreToFlush.Size()))`
+    match newWriter c.r.sl.size with
+    | .error f => .error f
+    | .ok _ =>
+      match Mem.flushCalls c.r true with
+      | none => .error .memPanic
+      | some calls =>
+        match writeAndOpen P (c.gen + 1) (calls.map mkCall) .flushWrite .flushOpen with
+        | .error f => .error f
+        | .ok t => .ok { c with flushPending := false, gen := c.gen + 1, tables := c.tables ++ [t] }
 
 /-- `rotateWalAndFlushMemstore` (+ `swapMemstore`): the hand-off channel is unbuffered, so the previous
 store has been flushed when the flusher takes this one -/
@@ -270,15 +280,22 @@ def compactPlan (P : Params) (c : State) : Except Fail (Option Plan) :=
     match sel with
     | [] => .ok none
     | t0 :: _ =>
-      match scanAll P sel with
-      | .error e => .error (.compactOpen e)
-      | .ok scans =>
-        -- `startsAtOldestTable := len(selected) > 0 && selected[0]`
-        let reduce := if flags.getD 0 false then Merge.scanReduceLatestWinsSkipTombstones
-                      else scanReduceLatestWinsKeepTombstones
-        match Merge.mergeCompact (scans.map scanInput) {} reduce with
-        | (some e, _) => .error (.compactMerge e)
-        | (none, wr) => .ok (some { first := first, idx := idx, gens := sel.map (·.gen), gen := t0.gen, out := wr.out })
+      -- `totalRecords` = Σ NumRecords of the selected tables; "tables that only hold dropped records are
+      -- compacted too, the bloom filter needs a positive size though": `if numRecords == 0 { numRecords = 1 }`
+      let numRecords := (sel.map (·.rd.md.numRecords)).sum
+      match newWriter (if numRecords = 0 then 1 else numRecords) with
+      | .error f => .error f
+      | .ok _ =>
+        match scanAll P sel with
+        | .error e => .error (.compactOpen e)
+        | .ok scans =>
+          -- `startsAtOldestTable := len(selected) > 0 && selected[0]`
+          let reduce := if flags.getD 0 false then Merge.scanReduceLatestWinsSkipTombstones
+                        else scanReduceLatestWinsKeepTombstones
+          match Merge.mergeCompact (scans.map scanInput) {} reduce with
+          | (some e, _) => .error (.compactMerge e)
+          | (none, wr) =>
+            .ok (some { first := first, idx := idx, gens := sel.map (·.gen), gen := t0.gen, out := wr.out })
 
 /-- `reflectCompactionResult`: the result takes the place of the first selected table, the other selected
 tables leave the list -/
